@@ -1,5 +1,5 @@
 """C15 — predefined commands render to the documented MPD request (DESIGN.md §4/C15)."""
-from .. import panics, tables
+from .. import panics, tables, terms
 from ..callgraph import norm
 from ..cfg import Cfg
 from ..common import body_by_name, callee_names, callgraph, impl_methods
@@ -443,6 +443,85 @@ def overflow_rule(rep, prog, cfg):
               "the +1 of range normalisation is applied to %s; expected start: Excluded, end: Included" % norm_starts)
 
 
+def range_norm_rule(rep, prog, cfg):
+    """Range normalisation as a table of terms: every function of the commands module that matches on the bounds of a
+    RangeBounds value must compute, per bound variant, exactly the value MPD's START:END (END exclusive) needs."""
+    rule = "C15.range-norm"
+    P = lambda v: ("field", ("scrut",), v, "0")
+    one = ("const", 1)
+    some = lambda t: ("agg", "core::option::Option", "Some", (t,))
+    EXPECT_BASE = {
+        "start": {"Included": P("Included"), "Excluded": ("sat_add", P("Excluded"), one), "Unbounded": ("const", 0)},
+        "end": {"Included": some(("sat_add", P("Included"), one)), "Excluded": some(P("Excluded")),
+                "Unbounded": ("agg", "core::option::Option", "None", ())},
+    }
+    bound = lambda v, ops: ("agg", "core::ops::range::Bound", v, ops)
+    EXPECT_WRAP = {side: {"Included": bound("Included", (("field", P("Included"), None, "0"),)),
+                          "Excluded": bound("Excluded", (("field", P("Excluded"), None, "0"),)),
+                          "Unbounded": bound("Unbounded", ())} for side in ("start", "end")}
+    found = 0
+    for b in prog.bodies.values():
+        if b.crate != "mpd_client" or b.raw.get("derived") or not norm(b.name).startswith("mpd_client::commands::"):
+            continue
+        side_of = {}
+        for bb, t in b.calls():
+            ns = callee_names(t)
+            for side in ("start", "end"):
+                if any(n.endswith("RangeBounds::%s_bound" % side) for n in ns) and t.get("dest") is not None:
+                    side_of[t["dest"]["l"]] = side
+        if not side_of:
+            continue
+        sws = [sw for sw in tables.discr_switches(b) if sw["adt"].endswith("ops::range::Bound") and sw["place"]["l"] in side_of and not sw["place"]["p"]
+               and len(sw["arms"]) >= 2]   # an `if let Bound::Unbounded` test (Move::range's guard) is not a normaliser
+        if not sws:
+            continue
+        found += 1
+        fn = norm(b.name)
+        results = {}
+        last_join = None
+        wrapper = None
+        for sw in sws:
+            side = side_of[sw["place"]["l"]]
+            join, arms = terms.match_arms(b, sw)
+            last_join = join
+            common = None
+            for v, (env, err) in arms.items():
+                common = set(env) if common is None else common & set(env)
+            common = sorted(common or [])
+            missing = [v for v in ("Included", "Excluded", "Unbounded") if v not in arms]
+            if missing or join is None or len(common) != 1 or any(err for env, err in arms.values()):
+                rep.fail(rule, "%s/%s %s bound" % (cfg, fn, side), b.loc(b.blocks[sw["bb"]]["ts"]),
+                         "the match on the %s bound is not three straight-line arms assigning one result (arms %s, result locals %s, %s): normalisation not recognised"
+                         % (side, sorted(arms), common, [err for env, err in arms.values() if err]))
+                continue
+            res = common[0]
+            results[side] = res
+            got = {v: terms.canon(env[res]) for v, (env, err) in arms.items()}
+            is_wrap = all(isinstance(t, tuple) and t[0] == "agg" and t[1] == "core::ops::range::Bound" for t in got.values())
+            wrapper = is_wrap if wrapper is None else (wrapper and is_wrap)
+            exp = (EXPECT_WRAP if is_wrap else EXPECT_BASE)[side]
+            for v in ("Included", "Excluded", "Unbounded"):
+                rep.check(got[v] == exp[v], rule, "%s/%s %s bound %s" % (cfg, fn, side, v), b.loc(b.blocks[sw["arms"][v]]["ts"]),
+                          "%s bound %s is normalised to `%s`; MPD's half-open START:END needs `%s` (x = the matched bound)"
+                          % (side, v, terms.show(got[v]), terms.show(exp[v])))
+            rep.sample({"fn": fn, "side": side, "arms": {v: terms.show(t) for v, t in got.items()}})
+        if set(results) == {"start", "end"} and last_join is not None:
+            env, err = terms.follow_arm(b, last_join, None, None)
+            ret = terms.canon(env.get(0, ("unknown", "no return value")))
+            s_, e_ = ("free", results["start"]), ("free", results["end"])
+            if ret[0] == "agg" and ret[1].endswith("::SongRange"):
+                ok = ret[3] == (s_, e_)
+            elif ret[0] == "call":
+                ok = ret[2] == (("agg", "tuple", None, (s_, e_)),)
+            else:
+                ok = False
+            rep.check(ok, rule, "%s/%s start,end order" % (cfg, fn), b.loc(b.span),
+                      "the normalised bounds do not reach the range value as (start, end): returns `%s` with start=_%d end=_%d"
+                      % (terms.show(ret), results["start"], results["end"]))
+    rep.floor(rule, cfg + "/normalisers", found, 2, "commands/definitions.rs")
+
+
+
 def choke_rule(rep, prog, cfg):
     rule = "C15.choke"
     aa = body_by_name(prog, "mpd_protocol::command::Command::add_argument")
@@ -457,6 +536,77 @@ def choke_rule(rep, prog, cfg):
     rep.check(ok, rule, cfg + "/one separator before each argument", b.loc(b.span),
               "add_argument does not write exactly one space (0x20) before the rendered argument: a parameter would not occupy exactly one argument slot")
     # textual impls go through the single escaping routine: covered by C15.render (slice(escape_argument(self)))
+    quote_trigger_rule(rep, prog, cfg)
+
+
+WS_SETS = {"core::char::methods::<impl char>::is_whitespace": {0x20, 0x09, 0x0A, 0x0B, 0x0C, 0x0D, 0x85, 0xA0},
+           "core::char::methods::<impl char>::is_ascii_whitespace": {0x20, 0x09, 0x0A, 0x0C, 0x0D}}
+
+
+def _pattern_chars(prog, t):
+    """characters of a `str::contains` pattern term: char constant, constant char array / slice, known predicate"""
+    t = terms.canon(t)
+    while isinstance(t, tuple) and t[0] == "call" and t[1] and t[1].rsplit("::", 1)[-1] in ("index", "as_slice", "as_ref", "deref", "borrow") and t[2]:
+        t = terms.canon(t[2][0])
+    if t[0] == "const":
+        v = t[1]
+        if isinstance(v, int):
+            return {v}
+        if isinstance(v, str):
+            for name, cs in WS_SETS.items():
+                if norm(v) == name:
+                    return set(cs)
+            if len(v) >= 3 and v[0] == "'" and v[-1] == "'":
+                from ..facts import parse_rust_literal
+                try:
+                    ch = parse_rust_literal('"' + v[1:-1].replace('"', '\\"') + '"')
+                    if isinstance(ch, (bytes, str)) and len(ch) >= 1:
+                        return {ord(ch.decode() if isinstance(ch, bytes) else ch)}
+                except Exception:
+                    return None
+        return None
+    if t[0] == "agg" and t[1] == "array":
+        out = set()
+        for o in t[3]:
+            cs = _pattern_chars(prog, o)
+            if cs is None:
+                return None
+            out |= cs
+        return out
+    return None
+
+
+def quote_trigger_rule(rep, prog, cfg):
+    """A parameter containing a blank or a tab is split by MPD's tokenizer unless the argument is quoted: the quoting
+    decision of the escaping routine must be a whole-argument membership test whose character set includes both."""
+    rule = "C15.choke"
+    bs = body_by_name(prog, "mpd_protocol::command::escape_argument")
+    if len(bs) != 1:
+        rep.fail(rule + ".anchor", cfg + "/escape_argument", "command.rs", "the escaping routine was not found")
+        return
+    b = bs[0]
+    quote_push = [bb for bb, t in b.calls() if any(n.endswith("String::push") for n in callee_names(t)) and len(t["args"]) == 2
+                  and op_const(t["args"][1]) is not None and op_const(t["args"][1]).get("c") in ("'\"'", "'\\\"'")]
+    switches = set()
+    for bb in b.reachable():
+        t = b.blocks[bb]["t"]
+        if t["k"] == "switch" and op_local(t["discr"]) is not None:
+            switches.add(op_local(t["discr"]))
+    fl = Flow(b)
+    triggers = []
+    for bb, t in b.calls():
+        if not any(n.endswith("str>::contains") or n.endswith("::str::contains") for n in callee_names(t)) or len(t["args"]) != 2 or t.get("dest") is None:
+            continue
+        pl = op_local(t["args"][1])
+        cs = _pattern_chars(prog, terms.term_of_local(b, pl)) if pl is not None else _pattern_chars(prog, terms.eval_op({}, None, t["args"][1]))
+        derived, _uses = fl.forward([t["dest"]["l"]])
+        controls = bool(set(derived) & switches)
+        triggers.append({"bb": bb, "chars": sorted(cs) if cs is not None else None, "controls_branch": controls})
+    good = [x for x in triggers if x["chars"] is not None and {0x20, 0x09} <= set(x["chars"]) and x["controls_branch"]]
+    rep.check(bool(good) and bool(quote_push), rule, cfg + "/blank and tab force quoting", b.loc(b.span),
+              "the escaping routine has no recognised quoting decision covering both separators: expected `argument.contains(<constant set including ' ' and '\\t'>)` "
+              "controlling the push of '\"'; found membership tests %s and %d quote pushes (a parameter with the missing separator would arrive as two arguments)"
+              % (triggers, len(quote_push)), detail={"triggers": triggers, "quote_pushes": len(quote_push)})
 
 
 def run(rep, progs, tier):
@@ -475,6 +625,7 @@ def run(rep, progs, tier):
     rep.rule("C15.render", "per Argument impl: ordered write events = reviewed table")
     rep.rule("C15.enums", "variant -> literal tables of SingleMode / ReplayGainMode / sticker operators / bool")
     rep.rule("C15.no-overflow", "no arithmetic Assert on the command path; saturating +1 on excluded start / included end")
+    rep.rule("C15.range-norm", "per bound variant the normalised term is x / sat(x+1) / 0 / Some / None as START:END needs; start,end order kept")
     rep.rule("C15.choke", "one separator per argument")
     rep.trusted = ["rustc MIR construction", "mpdfacts exporter", "MPD protocol command reference (reviewed table)", "rustc's format template encoding"]
     for cfg, prog in progs.items():
@@ -482,4 +633,5 @@ def run(rep, progs, tier):
         render_rule(rep, prog, cfg)
         enums_rule(rep, prog, cfg)
         overflow_rule(rep, prog, cfg)
+        range_norm_rule(rep, prog, cfg)
         choke_rule(rep, prog, cfg)
